@@ -119,6 +119,30 @@ fn real_main(args: &[String]) -> i32 {
                 say!("---- text {} ----\n{}", i, t);
             }
             say!("screened in {} out {}", screen.screened_in, screen.screened_out);
+            // every fragment alone and every file-level item alone, under each pragma
+            for pragma in 0..corpus::PRAGMAS.len() {
+                for i in 0..corpus::FRAGS.len() {
+                    let t = corpus::render(&corpus::TextSpec { pragma, contracts: vec![vec![i]], spdx: false, blank_lines: vec![1], clash: false, kinds: vec![], extras: vec![] });
+                    if !screen.ok(&t) {
+                        say!("fragment {} rejected under pragma {}", corpus::FRAGS[i].key, corpus::PRAGMAS[pragma]);
+                    }
+                }
+                for e in 0..corpus::EXTRAS.len() {
+                    let t = corpus::render(&corpus::TextSpec { pragma, contracts: vec![vec![0]], spdx: false, blank_lines: vec![1], clash: false, kinds: vec![], extras: vec![e as u8] });
+                    if !screen.ok(&t) {
+                        say!("extra {} rejected under pragma {}", e, corpus::PRAGMAS[pragma]);
+                    }
+                }
+                for k in 1..4u8 {
+                    let t = corpus::render(&corpus::TextSpec { pragma, contracts: vec![vec![0], vec![1, 5]], spdx: false, blank_lines: vec![1, 1], clash: false, kinds: vec![0, k], extras: vec![] });
+                    if !screen.ok(&t) {
+                        say!("kind {} rejected under pragma {}", k, corpus::PRAGMAS[pragma]);
+                    }
+                }
+                if !screen.ok(&corpus::stuffed_text(pragma)) {
+                    say!("stuffed text rejected under pragma {}", corpus::PRAGMAS[pragma]);
+                }
+            }
             0
         }
         "hashes" => {
